@@ -22,6 +22,7 @@ License: 3-clause BSD. (See the COPYRIGHT file)
 
 from __future__ import annotations
 
+import math
 import socket
 
 from typing import TYPE_CHECKING, ClassVar
@@ -73,7 +74,8 @@ class TrafficRate(ExtendedCommunity):
         return value
 
     def __repr__(self) -> str:
-        return 'rate-limit:%d' % self.rate
+        # a peer may send NaN or an infinity: '%d' raises on those, from the API writer
+        return 'rate-limit:%d' % self.rate if math.isfinite(self.rate) else 'rate-limit:%s' % self.rate
 
     @classmethod
     def unpack_attribute(cls, data: Buffer, negotiated: Negotiated | None = None) -> TrafficRate:
@@ -111,7 +113,7 @@ class TrafficRatePackets(ExtendedCommunity):
         return max(value, 0.0)
 
     def __repr__(self) -> str:
-        return 'rate-limit:%d:packets' % self.rate
+        return 'rate-limit:%d:packets' % self.rate if math.isfinite(self.rate) else 'rate-limit:%s:packets' % self.rate
 
     @classmethod
     def unpack_attribute(cls, data: Buffer, negotiated: Negotiated | None = None) -> TrafficRatePackets:
